@@ -377,7 +377,8 @@ def setup(ctx):
     ctx.rule = (
         "op histories over all 30 public Model mutators (valid and invalid arguments) and 8 query forms; distinct = "
         "distinct op lists; non-trivial = contains at least one mutator after the build prefix. Exhaustive stratum "
-        "(seed-independent): build; q1|none; m; q2; battery for every mutator x every listed argument choice x 9 x 8."
+        "(seed-independent): build; q1|none; m; q2; battery for every mutator x every listed argument choice x "
+        "(none + 3 query forms in quick, none + 8 in thorough) x 8 query forms."
     )
     ctx.assumptions += [
         "data sets are scalars (the Model stores whatever object it is given; pandas objects are not modelled)",
@@ -397,7 +398,8 @@ def run(ctx):
     ctx.exhaustive = True
     batches = []
     cur = []
-    for c in G.pairs():
+    thorough = ctx.tier == "thorough" or not ctx.proof_ok
+    for c in G.pairs(None if thorough else 3):
         cur.append(c)
         if len(cur) == 400:
             batches.append(cur)
@@ -406,7 +408,6 @@ def run(ctx):
         batches.append(cur)
     for b in batches:
         evaluate(ctx, b, judge)
-    thorough = ctx.tier == "thorough" or not ctx.proof_ok
     tri = list(G.triples()) if thorough else list(G.triples(ctx.rng, 2500))
     for i in range(0, len(tri), 400):
         evaluate(ctx, tri[i:i + 400], judge)
